@@ -134,7 +134,12 @@ impl HashSemiJoinExecutor {
             let keys_chunk = Evaluator::new(&self.left_keys).eval_list(&chunk)?;
             let exists = keys_chunk
                 .rows()
-                .map(|key| key_set.contains(&key.values().collect::<JoinKeys>()) ^ self.anti)
+                .map(|key| {
+                    let key = key.values().collect::<JoinKeys>();
+                    // a NULL key never equals anything, including another NULL
+                    let has_null = key.iter().any(|k| k.is_null());
+                    (!has_null && key_set.contains(&key)) ^ self.anti
+                })
                 .collect::<Vec<bool>>();
             yield chunk.filter(&exists);
         }
@@ -180,7 +185,10 @@ impl HashSemiJoinExecutor2 {
             let keys_chunk = Evaluator::new(&self.left_keys).eval_list(&chunk)?;
             let mut exists = Vec::with_capacity(chunk.cardinality());
             for (key, lrow) in keys_chunk.rows().zip(chunk.rows()) {
-                let b = if let Some(rchunk) = key_set.get(&key.values().collect::<JoinKeys>()) {
+                let key = key.values().collect::<JoinKeys>();
+                // a NULL key never equals anything, including another NULL
+                let has_null = key.iter().any(|k| k.is_null());
+                let b = if !has_null && let Some(rchunk) = key_set.get(&key) {
                     let lchunk = self.left_row_to_chunk(&lrow, rchunk.cardinality());
                     let join_chunk = lchunk.row_concat(rchunk.clone());
                     let ArrayImpl::Bool(a) = Evaluator::new(&self.condition).eval(&join_chunk)?
